@@ -112,7 +112,7 @@ def run_shard(ctx, shard, acc):
         for g in node.iter('{http://www.w3.org/2001/XMLSchema}attributeGroup'):
             group_users.setdefault(g.get('ref'), []).append(t)
     groups = sorted(g for g, ts in group_users.items() if len(ts) >= 2)
-    per = 1 if ctx.quick else 6
+    per = 2 if ctx.quick else 6     # Hypothesis' first example is always the minimal one; the following are drawn
 
     def explore_pair(wa, wb, rel):
         # quick tier: the fixed panel is explored exhaustively up to 3200 lines per pair (three of the four pairs completely), drawn pairs are thinned to 400 schedules; thorough: everything exhaustively
